@@ -20,9 +20,11 @@
    overflow checks) is an explicit `Panic "mod.rs:.."`/`"table.rs:.."`.  An identifier that is not in the
    tree is `Panic "model:no-such-node"` (never observed).  Loops that are not structural run on fuel.
    Numbers are `nat` (positions, columns, line numbers); the payload records of Model/Ast.v keep `N`.
+   The constants come from Gen/BlocksConst.v (translator item `blocks`, which also pins the text of every
+   function transcribed here).
    NO proofs in this file. *)
 From Coq Require Import List NArith Arith Bool Strings.String.
-From V Require Import Base.Bytes Base.Res Gen.StrLeafGen Gen.FeedConst Gen.Nodes Model.Ast Model.Strings
+From V Require Import Base.Bytes Base.Res Gen.StrLeafGen Gen.FeedConst Gen.Nodes Gen.BlocksConst Model.Ast Model.Strings
   Model.Entity Model.Scan Model.ListMarker Model.AutolinkLeaf Model.Feed Model.FrontMatter Model.RefDef
   Spec.EscapeSpec.
 Import ListNotations.
@@ -44,10 +46,10 @@ Record bopts := mkBO {
   bo_fold : bytes -> bytes            (* caseless::default_case_fold_str, see Model/Strings.v *)
 }.
 
-Definition tab_stop : nat := 4.
-Definition code_indent : nat := 4.
-Definition max_list_depth : nat := 100.
-Definition max_autocompleted_cells : N := 500000%N.
+Definition tab_stop : nat := gen_tab_stop.
+Definition code_indent : nat := gen_code_indent.
+Definition max_list_depth : nat := gen_max_list_depth.
+Definition max_autocompleted_cells : N := gen_max_autocompleted_cells.
 
 (* ------------------------------------------------------------------ nodes *)
 Record binfo := mkBI {
@@ -664,7 +666,7 @@ Fixpoint cell_start_loop (fuel : nat) (s : bytes) (start_offset internal_offset 
     else Ok (start_offset, internal_offset)
   end.
 
-Definition max_columns : nat := 65535.
+Definition max_columns : nat := N.to_nat gen_max_columns.
 
 (* the `while offset < len && expect_more_cells` loop: result (offset, paragraph_offset, cells, max_columns_abort) *)
 Fixpoint row_loop (fuel : nat) (s : bytes) (spoiler : bool) (offset paragraph_offset : nat) (cells : list tcell)
